@@ -183,6 +183,33 @@ class GreenSocket:
             s.block(lambda: fd not in p.fds or facade._readable(s, p, fd), None, True, False)
 
 
+class _Event:
+    """eventlet.event.Event: send() once, ready(), wait(timeout) -> the value sent, or None when the time is up"""
+
+    def __init__(self):
+        self._sent = False
+        self._value = None
+
+    def ready(self):
+        return self._sent
+
+    def send(self, result=None, exc=None):
+        assert not self._sent, "Trying to re-send() an already-triggered event."
+        self._sent, self._value = True, result
+        facade.sim().tick()
+
+    def wait(self, timeout=None):
+        s, t, p = facade.ctx()
+        if not self._sent:
+            s.block(lambda: self._sent, timeout, True, False)
+        s.tick()
+        return self._value if self._sent else None
+
+
+class _EventMod:
+    Event = _Event
+
+
 class _GreenPoolMod:
     GreenPool = GreenPool
 
@@ -214,6 +241,7 @@ class FakeEventlet:
     StopServe = StopServe
     greenpool = _GreenPoolMod
     greenthread = _GreenThreadMod
+    event = _EventMod
 
     def sleep(self, seconds=0):
         s, t, p = facade.ctx()
